@@ -94,7 +94,7 @@ def job_expr_at(item, cap):
         return ER.same(ex, got.fields[0].v, want)
     def model_doc(ex, extra=()):
         acc = []; SY.lazy_null_constraints(ex.doc, acc)
-        sat, m = eng.check(ex.pc + acc + list(extra))
+        sat, m = SY.check_pinned(eng, ex.pc, acc, list(extra))
         if not sat: return None, None
         return SY.tagged(ex, ex.doc, m), m
     def on_path(ex, r):
@@ -166,7 +166,7 @@ def job_ast(item):
         return ER.same(ex, got.fields[0].v, want)
     def model_of(ex):
         acc = []; SY.lazy_null_constraints(ex.doc, acc); SA.pin_constraints(ex.ast, acc)
-        sat, m = eng.check(ex.pc + acc)
+        sat, m = SY.check_pinned(eng, ex.pc, acc)
         if not sat: return None, None, None
         return SA.ast_json(ex, prog, ex.ast, m), SY.tagged(ex, ex.doc, m), m
     def on_path(ex, r):
